@@ -3178,7 +3178,13 @@ def inline_new_helpers(repo, full_ref):
         # argument expression would be evaluated when the lambda runs.  A helper that is `return lambda <args>: E` keeps its meaning when each
         # captured parameter becomes a default argument of the lambda (evaluated where the call stood); anything else is not inlined
         deferred = [x for x in ast.walk(h.node) if isinstance(x, (ast.Lambda, ast.GeneratorExp))]
-        captured = {y.id for x in deferred for y in ast.walk(x) if isinstance(y, ast.Name) and y.id in params and y.id != recv_param}
+        def _late(x):
+            # (the defaults of a lambda and the first iterable of a generator expression are evaluated at once)
+            if isinstance(x, ast.Lambda):
+                return [x.body]
+            return [x.elt] + [z for g_ in x.generators for z in g_.ifs] + [g_.iter for g_ in x.generators[1:]]
+        captured = {y.id for x in deferred for part in _late(x) for y in ast.walk(part) if isinstance(y, ast.Name) and y.id in params and y.id != recv_param
+                    and not (isinstance(x, ast.Lambda) and y.id in {a_.arg for a_ in x.args.args})}
         if captured:
             r0 = hbody[0] if len(hbody) == 1 and isinstance(hbody[0], ast.Return) else None
             lam = r0.value if r0 is not None and isinstance(r0.value, ast.Lambda) else None
